@@ -185,4 +185,185 @@ Section Steps.
       + rewrite (find_sub_nsid m sp HR). apply Hrefuse.
     - rewrite (find_sub_nsid m sp HR). apply Hrefuse.
   Qed.
+
+  (* ---------------------------------------------------------------- SUBSCRIBE: the TIMEOUT header *)
+  Definition do_sub_g (st : state) (cb : option N) (granted : Z) (sid : sidref) : state * step_obs :=
+    let e := now st + 1000 * granted in
+    match sid_truthy st sid with
+    | Some n =>
+        match find_sub n (subs st) with
+        | Some _ =>
+            if wall_ok e then
+              (set_subs st (map_sub n (fun s => set_exp s e) (subs st)), (SResp 200 (Some n) (Some granted) true, []))
+            else (st, (SRaised, []))
+        | None => (st, refused 404)
+        end
+    | None =>
+        match cb with
+        | None => (st, refused 404)
+        | Some cbv =>
+            if negb (wall_ok e) then (st, (SRaised, [])) else
+            let s := {| s_sid := nsid st; s_cb := cbv; s_key := seq_init; s_exp := e |} in
+            let st1 := set_nsid st (N.succ (nsid st)) in
+            match sid with
+            | SAbsent =>
+                let body := snapshot c (map v_val (vars st)) in
+                let st2 := set_outs (set_subs st1 (subs st ++ [bump s])) (add_outs (outs st) [(s_sid s, s_key s)]) in
+                (st2, (SResp 200 (Some (s_sid s)) (Some granted) true, mk_runs (now st) [] [note_for body s]))
+            | _ => (st1, (SResp 200 (Some (s_sid s)) (Some granted) true, []))
+            end
+        end
+    end.
+
+  Lemma granted_bounds t g : tmo_ok t = true -> tmo_granted t = Some g -> 1 <= g <= 1000000000.
+  Proof.
+    destruct t as [|n style|s]; cbn; intros Hok Hg; inversion Hg; subst.
+    - unfold default_timeout. lia.
+    - lia.
+  Qed.
+
+  Lemma do_subscribe_granted m cb t sid g :
+    tmo_ok t = true -> tmo_granted t = Some g -> do_subscribe c m cb t sid = do_sub_g m cb g sid.
+  Proof.
+    intros Hok Hg. pose proof (granted_bounds t g Hok Hg) as Hb.
+    destruct t as [|n style|s]; cbn in Hg; inversion Hg; subst; unfold do_subscribe; cbn [render_tmo].
+    - reflexivity.
+    - rewrite parse_timeout_sec by lia. reflexivity.
+  Qed.
+
+  Lemma do_subscribe_malformed m cb t sid :
+    tmo_ok t = true -> tmo_granted t = None -> do_subscribe c m cb t sid = (m, refused 400).
+  Proof.
+    destruct t as [|n style|s]; cbn; intros Hok Hg; try discriminate.
+    unfold do_subscribe. cbn [render_tmo]. destruct (parse_timeout s); [discriminate|reflexivity].
+  Qed.
+
+  Lemma wall_ok_granted m sp g :
+    R c m sp -> now m <= horizon -> 1 <= g <= 1000000000 -> wall_ok (now m + 1000 * g) = true.
+  Proof.
+    intros [_ [_ [H0 _]]] Hh Hg. unfold wall_ok, wall_min, wall_max, horizon in *. lia.
+  Qed.
+
+  (* ---------------------------------------------------------------- renewal *)
+  Lemma step_renew m sp cb t sid :
+    R c m sp -> now m <= horizon -> tmo_ok t = true ->
+    match sid with SIdx _ | SBogus => True | _ => False end ->
+    step_ok m sp (OSub cb t sid).
+  Proof.
+    intros HR Hh Hok Hsid. unfold step_ok. cbn [step adv_of]. rewrite Z.add_0_r.
+    pose proof HR as [Hnow [Hns _]].
+    assert (Hrefuse : forall st cl, (400 <=? st)%N && (st <? 500)%N = true -> exists sp',
+               finish_step c [] sp None (sp_now sp) (chk cl (is_4xx (SResp st None None true))) = (sp', []) /\
+               R c m sp' /\ now m = now m).
+    { intros st cl Hst. destruct (refused_unknown m sp st cl HR Hst) as [Hf HR']. eauto. }
+    destruct (tmo_granted t) as [g|] eqn:Hg.
+    - (* well-formed TIMEOUT *)
+      rewrite (do_subscribe_granted m cb t sid g Hok Hg).
+      pose proof (granted_bounds t g Hok Hg) as Hb.
+      pose proof (wall_ok_granted m sp g HR Hh Hb) as Hw.
+      unfold do_sub_g, spec_step.
+      destruct sid as [| |n|]; try contradiction; cbn [sid_truthy named_sid fst snd refused]; rewrite ?Hns, ?Hg.
+      + destruct (n <? nsid m)%N eqn:Hn.
+        * destruct (find_sub n (subs m)) as [s|] eqn:Hfs; cbn [fst snd].
+          -- destruct (known m sp n s HR Hfs) as [ss [Hfss Hm]]. rewrite Hfss, Hw. cbn [fst snd].
+             rewrite N.eqb_refl, Z.eqb_refl. cbn [andb].
+             assert (HR1 : R c (set_subs m (map_sub n (fun s => set_exp s (now m + 1000 * g)) (subs m)))
+                             (sp_set_subs sp (map_ssub n (fun s => ss_set_exp s (sp_now sp + 1000 * g)) (sp_subs sp)))).
+             { rewrite Hnow. destruct HR as [H1 [H2 [H3 [H4 [H5 H6]]]]]. unfold R. repeat (split; [assumption|]).
+               cbn [subs set_subs sp_subs sp_set_subs vars nsid now].
+               apply subs_ok_map; auto; [|eauto].
+               intros s0 ss0 Hk0 [Ha [Hb0 [Hc [Hd He]]]]. split; [exact Hk0|]. unfold sub_match. cbn. auto. }
+             destruct (finish_norun _ _ HR1) as [Hf HR']. eexists. split; [exact Hf|]. split; [exact HR'|reflexivity].
+          -- destruct (find_ssub n (sp_subs sp)) as [ss|] eqn:Hfss; [|now apply Hrefuse].
+             cbn [fst snd]. rewrite (lapsed m sp n ss HR Hfs Hfss). now apply Hrefuse.
+        * rewrite (find_sub_nsid m sp HR). now apply Hrefuse.
+      + rewrite (find_sub_nsid m sp HR). now apply Hrefuse.
+    - (* malformed TIMEOUT *)
+      rewrite (do_subscribe_malformed m cb t sid Hok Hg). unfold spec_step.
+      destruct sid as [| |n|]; try contradiction; cbn [named_sid fst snd refused]; rewrite ?Hg.
+      + destruct (n <? sp_nsid sp)%N; [|now apply Hrefuse].
+        destruct (find_ssub n (sp_subs sp)); now apply Hrefuse.
+      + now apply Hrefuse.
+  Qed.
+
+  (* ---------------------------------------------------------------- initial subscription *)
+  Lemma map_ssub_app_new x g sps a :
+    (forall ss, In ss sps -> ss_sid ss <> x) -> ss_sid a = x ->
+    map_ssub x g (sps ++ [a]) = sps ++ [g a].
+  Proof.
+    intros Hne Ha. unfold map_ssub. rewrite map_app. cbn. rewrite Ha, N.eqb_refl. f_equal.
+    rewrite <- (map_id sps) at 2. apply map_ext_in. intros ss Hin.
+    destruct (N.eqb_spec (ss_sid ss) x) as [He|_]; [exfalso; eapply Hne; eauto|reflexivity].
+  Qed.
+
+  Lemma fresh_ok_snapshot vs : fresh_ok c vs (snapshot c (map v_val vs)).
+  Proof.
+    intros i d vr Hc Hvr Hev. left. eapply lookup_snapshot; eauto. rewrite nth_error_map, Hvr. reflexivity.
+  Qed.
+
+  Lemma step_subscribe m sp cb t :
+    R c m sp -> now m <= horizon -> tmo_ok t = true -> step_ok m sp (OSub cb t SAbsent).
+  Proof.
+    intros HR Hh Hok. unfold step_ok. cbn [step adv_of]. rewrite Z.add_0_r.
+    pose proof HR as [Hnow [Hns [H0 [Hv [Htm Hsubs]]]]].
+    assert (Hrefuse : forall st cl, (400 <=? st)%N && (st <? 500)%N = true -> exists sp',
+               finish_step c [] sp None (sp_now sp) (chk cl (is_4xx (SResp st None None true))) = (sp', []) /\
+               R c m sp' /\ now m = now m).
+    { intros st cl Hst. destruct (refused_unknown m sp st cl HR Hst) as [Hf HR']. eauto. }
+    destruct (tmo_granted t) as [g|] eqn:Hg.
+    2:{ rewrite (do_subscribe_malformed m cb t SAbsent Hok Hg). unfold spec_step. cbn [fst snd refused].
+        rewrite Hg. destruct cb; now apply Hrefuse. }
+    rewrite (do_subscribe_granted m cb t SAbsent g Hok Hg).
+    pose proof (granted_bounds t g Hok Hg) as Hb.
+    pose proof (wall_ok_granted m sp g HR Hh Hb) as Hw.
+    unfold do_sub_g. cbn [sid_truthy].
+    destruct cb as [cbv|].
+    2:{ unfold spec_step. cbn [fst snd refused]. now apply Hrefuse. }
+    rewrite Hw. cbn [negb].
+    set (s := {| s_sid := nsid m; s_cb := cbv; s_key := seq_init; s_exp := now m + 1000 * g |}).
+    set (body := snapshot c (map v_val (vars m))).
+    set (new := new_ssub (sp_nsid sp) cbv (sp_now sp + 1000 * g)).
+    cbn [fst snd mk_runs]. unfold spec_step. cbn [fst snd]. rewrite Hg.
+    replace (s_sid s =? sp_nsid sp)%N with true by (cbn; rewrite Hns; symmetry; apply N.eqb_refl).
+    rewrite Z.eqb_refl. cbn [andb].
+    assert (Habs : forall ss, In ss (sp_subs sp) -> ss_sid ss <> nsid m).
+    { intros ss Hin. destruct Hsubs as [_ [_ [_ Hsp]]]. destruct (Hsp ss Hin). lia. }
+    assert (Hkey0 : (seq_init <= seq_max)%N) by (unfold seq_init, seq_max; lia).
+    (* clause 1: the initial event *)
+    assert (Hfirst : first_note_ok (sp_nsid sp) (snapshot c (map p_val (sp_vars sp)))
+                       [{| r_t := now m; r_trig := []; r_notes := [note_for body s] |}] = true).
+    { unfold first_note_ok. cbn [flat_map r_notes app filter note_for n_sid s s_sid]. rewrite Hns, N.eqb_refl.
+      cbn [n_seq n_vals s_key]. rewrite <- (vrel_vals c _ _ _ Hv). fold body. rewrite vals_eqb_refl.
+      reflexivity. }
+    rewrite Hfirst. cbn [chk].
+    (* the run *)
+    assert (Hrun : check_runs c (Some (sp_nsid sp)) (sp_now sp)
+                     (sp_set_nsid (sp_set_subs sp (sp_subs sp ++ [new])) (N.succ (sp_nsid sp)))
+                     [{| r_t := now m; r_trig := []; r_notes := [note_for body s] |}]
+                   = ({| sp_now := now m; sp_nsid := N.succ (sp_nsid sp); sp_vars := sp_vars sp;
+                         sp_subs := sp_subs sp ++ [ss_sent new (next_key seq_init) body] |}, [])).
+    { unfold new, new_ssub. unfold check_runs. cbn [fold_left]. unfold check_run.
+      cbn [fst snd r_t r_trig r_notes fold_left sp_vars sp_subs sp_nsid sp_now sp_set_nsid sp_set_subs].
+      unfold apply_note. cbn [fst snd note_for n_sid n_cb n_seq n_vals s s_sid s_cb s_key].
+      rewrite find_ssub_app, find_ssub_absent by exact Habs.
+      unfold find_ssub at 1. cbn [find ss_sid]. rewrite Hns, N.eqb_refl.
+      cbn [ss_exp ss_cb ss_key].
+      rewrite map_ssub_app_new by (auto; cbn; congruence).
+      rewrite (next_key_spec _ Hkey0).
+      rewrite Hnow. replace (now m <? now m + 1000 * g) with true by (symmetry; apply Z.ltb_lt; lia).
+      rewrite N.eqb_refl, seq_init_zero. cbn [N.eqb andb chk app].
+      replace ((now m <=? now m) && (now m <=? now m)) with true by (symmetry; rewrite Z.leb_refl; reflexivity).
+      unfold counts_ok, count_sid. cbn [forallb filter n_sid length is_new]. rewrite !N.eqb_refl.
+      reflexivity. }
+    assert (HR1 : R c (set_outs (set_subs (set_nsid m (N.succ (nsid m))) (subs m ++ [bump s]))
+                                (add_outs (outs m) [(nsid m, seq_init)]))
+                    (sp_set_now {| sp_now := now m; sp_nsid := N.succ (sp_nsid sp); sp_vars := sp_vars sp;
+                                   sp_subs := sp_subs sp ++ [ss_sent new (next_key seq_init) body] |} (sp_now sp))).
+    { unfold R. cbn [now nsid vars timers subs set_outs set_subs set_nsid sp_set_now sp_now sp_nsid sp_vars sp_subs].
+      split; [exact Hnow|]. split; [now rewrite Hns|]. split; [exact H0|]. split; [exact Hv|]. split; [exact Htm|].
+      apply subs_ok_add; [reflexivity | exact (next_key_bound seq_init Hkey0) | | exact Hsubs].
+      unfold sub_match, new, new_ssub. cbn [ss_sent ss_sid ss_cb ss_exp ss_key ss_last bump s s_sid s_cb s_exp s_key].
+      rewrite Hns, Hnow. repeat (split; [reflexivity|]). apply fresh_ok_snapshot. }
+    eexists. split; [eapply finish_ok; [exact Hrun|exact HR1]|]. split; [exact HR1|reflexivity].
+  Qed.
 End Steps.
